@@ -291,6 +291,15 @@ async def rdf_case(rng, force=None):
                         wf.mark_dir_to_be_deleted(Path(p).parent)
                 for dname in rng.sample(TREE_DIRS[1:] + ["."], k=rng.randint(0, 2)):
                     wf.mark_dir_to_be_deleted(dname)
+                if rng.random() < 0.3:
+                    # a directory scheduled for removal that the user replaced by a symbolic link to a directory of
+                    # their own (empty or not): is_dir() and iterdir() follow the link, rmdir does not
+                    os.makedirs("user/linked", exist_ok=True)
+                    if rng.random() < 0.5:
+                        Path("user/linked/mine.txt").write_text("user file")
+                    os.symlink("user/linked", "lnkdir")
+                    wf.mark_dir_to_be_deleted("lnkdir")
+                    desc.append(["lnkdir", "marked-directory", "link-dir"])
             serial = 0
             first = True
             for p, role in plan:
